@@ -427,17 +427,22 @@ namespace Pistache::Http::Experimental
         }
         else
         {
-            Guard guard(timeoutsLock);
-            auto timerIt = timeouts.find(fd);
-            if (timerIt != std::end(timeouts))
+            // The time-out is handled without holding the lock: rejecting the
+            // request hands the connection to the next queued request, whose
+            // time-out is registered under the same lock.
+            std::shared_ptr<Connection> connection;
             {
-                auto connection = timerIt->second.lock();
-                if (connection)
+                Guard guard(timeoutsLock);
+                auto timerIt = timeouts.find(fd);
+                if (timerIt != std::end(timeouts))
                 {
-                    connection->handleTimeout();
-                    timeouts.erase(fd);
+                    connection = timerIt->second.lock();
+                    if (connection)
+                        timeouts.erase(timerIt);
                 }
             }
+            if (connection)
+                connection->handleTimeout();
         }
     }
 
